@@ -42,7 +42,7 @@ SInit(limit, respBuf) ==
     faults   |-> <<>>,
     stream   |-> "live",   \* "live" | "end" | "read" | "ready" | "write" | "flush" | "close" | "dropped"
     panic    |-> FALSE, spin |-> FALSE,
-    credit   |-> FALSE, sinkfail |-> FALSE, unflushed |-> 0, lastflush |-> "none",
+    credit   |-> FALSE, sinkfail |-> FALSE, unflushed |-> 0, lastflush |-> "none", thrUnfl |-> FALSE,
     bad      |-> {},       \* recorded violations: <<property, what, signature>>
     f6       |-> FALSE,    \* the F6 state (throttled poll that never reached the inner channel) was seen
     pt       |-> NoPt ]
@@ -121,7 +121,7 @@ SResponse(o, id, ok, h, throttle) ==
                 ELSE o1
         o2 == IF f7 THEN [o2a EXCEPT !.f7poll = TRUE] ELSE o2a
         o3 == IF id \in TrackedIds(o2) THEN Untrack(EndInc(o2, HOf(o2, id), "expired"), id) ELSE o2
-    IN [o3 EXCEPT !.read = NoRead, !.throttled = @ + 1]
+    IN [o3 EXCEPT !.read = NoRead, !.throttled = @ + 1, !.thrUnfl = TRUE]
   ELSE IF h \in DOMAIN o.inc THEN
     LET i == o.inc[h]
         cur == IF id \in TrackedIds(o) THEN HOf(o, id) ELSE 0
@@ -195,7 +195,7 @@ SSinkOp0(o, op, res, unflushed) ==
          LET o1 == IF ~o.credit THEN Bad(o, "C14", "send without readiness", "")
                    ELSE IF o.sinkfail THEN Bad(o, "C14", "send after failure", "") ELSE o
          IN [o1 EXCEPT !.credit = FALSE, !.unflushed = IF res = "ok" THEN @ + 1 ELSE @]
-    [] op = "flush" -> IF res = "ok" THEN [o EXCEPT !.unflushed = 0, !.lastflush = "ok"]
+    [] op = "flush" -> IF res = "ok" THEN [o EXCEPT !.unflushed = 0, !.lastflush = "ok", !.thrUnfl = FALSE]
                        ELSE IF res = "err" THEN [o EXCEPT !.sinkfail = TRUE, !.lastflush = "err"]
                        ELSE [o EXCEPT !.lastflush = "pending"]
     [] op = "next" -> [o EXCEPT !.nextInPoll = TRUE]
@@ -250,8 +250,11 @@ SPollEnd(o, res, infl, timers) ==
               THEN Bad(o2, "C11", "timer count differs from in-flight count", "") ELSE o2
       o4 == IF quiet /\ res = "pending" /\ o.unflushed > 0 /\ o.lastflush # "pending"
               THEN Bad(o3, "C14", "idle with unflushed items and no flush pending", "") ELSE o3
+      \* a refusal written into the transport's buffer and left there when the channel goes idle has not been received
+      o4b == IF quiet /\ res = "pending" /\ o.unflushed > 0 /\ o.lastflush # "pending" /\ o.thrUnfl
+              THEN Bad(o4, "C12", "refused request's throttle response left unflushed when the channel went idle", "") ELSE o4
       o5a == IF o.read.id >= 0 /\ ~o.read.dup /\ ~o.read.amb /\ res \in {"pending", "item", "end"}
-              THEN Bad(o4, "C08", "request read but neither yielded, refused nor a duplicate", "") ELSE o4
+              THEN Bad(o4b, "C08", "request read but neither yielded, refused nor a duplicate", "") ELSE o4b
       \* the channel died (without any injected fault) while a request it had read at its limit was still unanswered
       o5 == IF quiet /\ res = "err" /\ o.read.id >= 0 /\ ~o.read.dup /\ o.limit >= 0 /\ o.read.omin >= o.limit
               THEN Bad(o5a, "C12", "refused request did not receive its throttle response", "") ELSE o5a
